@@ -24,7 +24,7 @@ EVAL_KEY = "pairs_judged"
 DISTINCT_KEY = "pairs"
 NSHARDS = {"quick": 8, "thorough": 16}
 FLOORS = {"quick": {"pairs_judged": 4000, "distinct:option-sets": 40, "determinism_checks": 4000},
-          "thorough": {"pairs_judged": 200000, "distinct:option-sets": 800, "determinism_checks": 200000, "hash_seed_digests": 3}}
+          "thorough": {"pairs_judged": 80000, "distinct:option-sets": 500, "determinism_checks": 80000, "hash_seed_digests": 3}}
 ASSUMPTIONS = ["byte equality and exact dictionary equality need no model"]
 DOMAIN = gen.DOMAIN + ["loads is called as in the statement (no kept comments): idempotence with include_comments=True is not claimed by the "
                        "property (END comments of the first pass would be read back as source comments)","documents whose strings contain the output quote character or a backslash are skipped for that quote (documented)",
@@ -87,13 +87,20 @@ def _first_text_diff(a, b):
 
 def digest_slice(seed):
     """Digest of all outputs of a fixed slice (run in subprocesses with different PYTHONHASHSEED)."""
+    from .. import findings
+
+    gated = set(findings.all_gates())
     r = core.rng(seed, "c04-digest")
     eng = Engine(public_every=0)
     hh = hashlib.sha256()
     osets = engine.covering_option_sets(core.rng(seed, "c04-opts"), 48)
     for j in range(200):
-        nodes = gen.gen_document(r, gen.GenOpts(p_key=0.3, dup=0.0))
-        d = eng.loads(render.render(nodes).text)
+        nodes = gen.gen_document(r, gen.GenOpts(gated=gated, p_key=0.3, dup=0.0))
+        try:
+            d = eng.loads(render.render(nodes).text)
+        except Exception as ex:
+            hh.update(("load:" + type(ex).__name__).encode())
+            continue
         o = osets[j % len(osets)]
         try:
             hh.update(eng.dumps(d, **o).encode())
@@ -118,7 +125,7 @@ def run(ctx):
         if ctx.quick:
             osets = r.sample(cover, 8)
         else:
-            osets = allsets if idx % 12 == 0 else r.sample(cover, 12)
+            osets = allsets if idx % 40 == 0 else r.sample(cover, 12)
         for o in osets:
             t1 = judge(ctx, eng, text, o, label, ident)
         res.count("docs:" + label)
@@ -131,10 +138,13 @@ def run(ctx):
             p = subprocess.run([core.PY, "-c", "import sys; sys.path.insert(0, %r); from mf import core; core.setup_env(); "
                                 "from mf.workloads import C04; print(C04.digest_slice(%d))" % (core.VERIF, ctx.seed)],
                                env=env, capture_output=True, text=True, timeout=600)
-            digs[hs] = p.stdout.strip().split("\n")[-1] if p.returncode == 0 else "ERR " + p.stderr[-300:]
+            if p.returncode != 0:
+                res.inconclusive_because("hash-seed digest subprocess failed: " + p.stderr[-300:])
+                break
+            digs[hs] = p.stdout.strip().split("\n")[-1]
             res.count("hash_seed_digests")
         res.notes.append(f"digests per PYTHONHASHSEED: {digs}")
-        if len(set(digs.values())) != 1:
+        if len(digs) == 3 and len(set(digs.values())) != 1:
             res.violation("output-depends-on-hash-seed", {"digests": digs, "options": None, "doc": "200-document slice"}, digs, "one digest")
 
 
